@@ -85,7 +85,12 @@ func genPattern(t *rapid.T) []*Stmt {
 	if second.K == "selfdestruct" && second.Cond < 0 {
 		second.Cond = unif(t, 4, "patSdCond")
 	}
-	switch unif(t, 4, "patKind") {
+	switch unif(t, 5, "patKind") {
+	case 4: // probes: what does the contract see of an account? (also what read-only calls are made for)
+		return []*Stmt{
+			{K: "return", Cond: unif(t, 2, "probeCond"), E: &Expr{K: "balance", A: &Expr{K: "arg", I: 1}}},
+			{K: "return", Cond: 2 + unif(t, 2, "probeCond2"), E: &Expr{K: "add", A: &Expr{K: "balance", A: &Expr{K: "arg", I: 2}}, B: &Expr{K: "balance", A: &Expr{K: "caller"}}}},
+		}
 	case 0: // callee side: pay somebody, then fail
 		return []*Stmt{
 			{K: "call", Cond: -1, Target: &Expr{K: "arg", I: 2}, Value: &Expr{K: "half", A: &Expr{K: "selfbalance"}}, OnFail: "ignore"},
